@@ -19,13 +19,17 @@ def obligations(tier):
         Ob("C15.kernel_guards", "CH", "harness.h_sync", "kernel_guards", 60, funcs=(TK + "seconds_from_ticks_at_bpm (guard prefix)",)),
         Ob("C15.rx.unsigned", "PY", "vf.rx_props", "c08", 300, funcs=(SY + "*.ParsedData._regex",), bounds="B/TS/A recognisers accept only unsigned digit strings (L<=UP)"),
     ]
-    for ns in ([2, 3] if tier == "quick" else [2, 3]):
+    if tier == "thorough":
+        for k0 in range(12):
+            obs.append(Ob(f"C15.real_lines.N3.first{k0}", "CH", "harness.h_extra", "sync_real_lines", 1500, {"VF_NSYNC": 3, "VF_K0": k0},
+                          funcs=(SY + "SyncTrack.from_chart_lines",), bounds="every sequence of 3 lines, first fixed per partition"))
+    if tier == "quick":
+        obs.append(Ob("C15.real_lines.N3.firstTS", "CH", "harness.h_extra", "sync_real_lines", 1500, {"VF_NSYNC": 3, "VF_K0": 6},
+                      funcs=(SY + "SyncTrack.from_chart_lines",), bounds="a tick-0 signature line followed by every pair of lines from the 12 shapes"))
+    for ns in [2]:
         obs.append(Ob(f"C15.real_lines.N{ns}", "CH", "harness.h_extra", "sync_real_lines", 1500, {"VF_NSYNC": ns},
                       funcs=(SY + "SyncTrack.from_chart_lines", "chartparse.track.parse_data_from_chart_lines"),
                       bounds=f"real recognisers on every sequence of {ns} lines from 12 shapes (exact duplicates, zero tempos, shifted tick-0 lines, garbage), resolution in {{192, 0, -192}}"))
-    if tier == "thorough":
-        for k0 in range(12):
-            obs.append(Ob(f"C15.real_lines.N4.first{k0}", "CH", "harness.h_extra", "sync_real_lines", 2400, {"VF_NSYNC": 4, "VF_K0": k0}, funcs=(SY + "SyncTrack.from_chart_lines",)))
     for nb in ([0, 1] if tier == "quick" else [0, 1, 2, 3]):
         obs.append(Ob(f"C15.sync_from_lines.NB{nb}", "CH", "harness.h_c18", "sync_corrupt", 1200, {"VF_NB": nb},
                       funcs=(SY + "SyncTrack.from_chart_lines",), bounds=f"{nb} tempo token lines: returns only when trustworthy, else ValueError"))
